@@ -21,13 +21,13 @@ def search(pid, f):
             w = fn(pid, f)
             if w: return w
     # last resort: the generic twins of the property family (a failing obligation with no generator of its own)
-    if pid in ('C01', 'C02', 'C05', 'C06', 'C07', 'C08', 'C11', 'C12', 'C19', 'C15'):
+    if pid in ('C01', 'C02', 'C05', 'C06', 'C07', 'C08', 'C11', 'C12', 'C13', 'C19', 'C15'):
         for (name, fn) in (('gen_refmodel', gen_refmodel), ('gen_refmodel_policy', gen_refmodel_policy)):
             if name not in tried:
                 w = fn(pid, f)
                 if w: return w
     if pid in ('C09', 'C10', 'C12', 'C13', 'C18'):
-        for (name, fn) in (('gen_framing', gen_framing), ('gen_sock', gen_sock)):
+        for (name, fn) in (('gen_framing', gen_framing), ('gen_sock', gen_sock)) + ((('gen_sock_faults', gen_sock_faults),) if pid in ('C12', 'C18') else ()):
             if name not in tried:
                 w = fn(pid, f)
                 if w: return w
@@ -208,6 +208,12 @@ def gen_refmodel(pid, f, config=()):
     for h in refmodel.boundary_histories():
         r = refmodel.run_history(h, config)
         if r: return wit(h, r)
+    if not any(c.startswith('limit ') for c in config):
+        cfg = tuple(config) + ('limit 1024',)
+        for h in refmodel.limit_histories():
+            r = refmodel.run_history(h, cfg)
+            if r:
+                w = wit(h, r); w['config'] = list(cfg); return w
     import random
     rng = random.Random(seed)
     for _ in range(150):
@@ -290,7 +296,7 @@ def gen_sock(pid, f):
             for c in (1, 24, len(fr) - 1):
                 if 0 < c < len(fr): cuts.append(off + c)
             off += len(fr)
-        for c in cuts[:8]:
+        for c in (cuts if len(cuts) <= 9 else cuts[:6] + cuts[-3:]):   # the last frame's cuts matter: nothing follows them
             deliveries['cut at %d' % c] = [stream[:c], stream[c:]]
         if len(stream) > 3000:
             deliveries['cut inside the oversized body twice'] = [stream[:1024], stream[1024:2024], stream[2024:]]
@@ -305,6 +311,56 @@ def gen_sock(pid, f):
                 return {'kind': 'sock', 'lines': lines, 'expect_recv': want, 'what': 'pipeline "%s" delivered as "%s": the server answers %s..., the request path requires %s...' % (name, dn, got[:48], want[:48]),
                         'required': 'the response bytes do not depend on segmentation and equal those of decode -> handler -> encode'}
     return None
+
+# ------------------------------------------------------------------------------------------------
+# C18 over TCP: a connection is cut at an offset of its pipelined stream (or carries a corrupted header) and a second
+# connection observes afterwards.  Required: the observer's responses are exactly those that the completed requests
+# imply (computed by the socket-less request path on the completed prefix).  BOUNDED: the offsets and streams below.
+def _observer_expect(prefix_frames, observer_frames, limit=1048576):
+    ev = replaytool.run_session(['limit %d' % limit] + ['feed ' + f.hex() for f in prefix_frames] + ['conn'] + ['feed ' + f.hex() for f in observer_frames])
+    k = max(i for i, e in enumerate(ev) if e == 'conn') if 'conn' in ev else -1
+    return ''.join(e[5:] for e in ev[k + 1:] if e.startswith('resp '))
+
+def gen_sock_faults(pid, f):
+    noop = hdr(0x0a, opaque=0x0b0b0b0b)
+    frames = [f_set(b'a', b'1'), f_set(b'b', b'22', op=0x11), f_delta(5, b'c', 1, 10, 0), f_set(b'd', b'4444')]
+    observer = [f_key(0, b'a'), f_key(0, b'b'), f_key(0, b'c'), f_key(0, b'd'), noop]
+    stream = b''.join(frames)
+    bounds = [0]
+    for fr in frames: bounds.append(bounds[-1] + len(fr))
+    cuts = sorted(set([0, 1, 23, 24] + bounds + [b + 1 for b in bounds[:-1]] + [b + 24 for b in bounds[:-1]] + [b - 1 for b in bounds[1:]]))
+    cuts = [c for c in cuts if 0 <= c <= len(stream)]
+    gen_sock_faults.last_count = 0
+    def completed(c): return [fr for i, fr in enumerate(frames) if bounds[i + 1] <= c]
+    def check(lines, want, what):
+        gen_sock_faults.last_count += 1
+        got, eof = _sock(lines)
+        if got != want:
+            return {'kind': 'sock', 'lines': lines, 'expect_recv': want, 'what': what + ': the observing connection receives %s..., required %s...' % (got[:64], want[:64]),
+                    'required': 'the observer sees exactly the store contents that the completely sent requests imply'}
+        return None
+    # (1) orderly close at every selected offset
+    for c in cuts:
+        lines = (['send ' + stream[:c].hex()] if c else []) + ['sleep 80', 'conn'] + ['send ' + b''.join(observer).hex(), 'recv 300']
+        w = check(lines, _observer_expect(completed(c), observer), 'stream of %d requests cut at byte %d, connection closed' % (len(frames), c))
+        if w: return w
+    # (2) corrupted header byte after complete requests, delivered in ONE segment
+    for n_ok in (1, 2, 3):
+        bad = bytearray(frames[n_ok]); bad[0] = 0x55
+        seg = b''.join(frames[:n_ok]) + bytes(bad)
+        lines = ['send ' + seg.hex(), 'sleep 80', 'conn', 'send ' + b''.join(observer).hex(), 'recv 300']
+        w = check(lines, _observer_expect(frames[:n_ok], observer), '%d complete requests followed by a header with a corrupted magic byte, in one segment' % n_ok)
+        if w: return w
+    # (3) many faulted connections in a row (more than the connection limit of the driver, 8), then the observer
+    part = stream[:bounds[1] + 30]
+    lines = []
+    for _ in range(10):
+        lines += ['send ' + part.hex(), 'sleep 30', 'conn']
+    lines += ['send ' + b''.join(observer).hex(), 'recv 600']
+    w = check(lines, _observer_expect([frames[0]] * 10, observer), 'ten connections in a row cut inside their second request')
+    if w: return w
+    return None
+gen_sock_faults.last_count = 0
 
 # ------------------------------------------------------------------------------------------------
 # C15 (and C01 with "random eviction, limit not reached"): a workload that only stores NEW keys, deletes (cas 0,
